@@ -111,6 +111,16 @@ func checkText(c Case) error {
 			return err
 		}
 		forms++
+		// a text form denotes the whole value: parsing it into a receiver that already holds another
+		// value (a reused variable, a slice element json.Unmarshal decodes into again) gives v, too
+		if o, ok, err := c.other(k.Type); err != nil {
+			return stats.Failf("", "harness: %v", err)
+		} else if ok {
+			if err := dirtyReceiver(k, v, o, txt, true); err != nil {
+				return err
+			}
+			forms++
+		}
 	}
 	same := func(what, s string, got any, perr error) error {
 		if perr != nil {
@@ -189,6 +199,58 @@ func checkText(c Case) error {
 	return nil
 }
 
+const keyStale = "C20/specifier-unmarshaltext-keeps-stale-bytes"
+
+func trimmedLen(s types.Specifier) int { return len(bytes.TrimRight(s[:], "\x00")) }
+
+// staleClass is the input class of the known finding: the receiver's specifier has a non-zero
+// byte beyond the length of the specifier being parsed.
+func staleClass(v, old reflect.Value) bool {
+	var a, b types.Specifier
+	switch x := v.Interface().(type) {
+	case types.Specifier:
+		a, b = x, old.Interface().(types.Specifier)
+	case types.UnlockKey:
+		a, b = x.Algorithm, old.Interface().(types.UnlockKey).Algorithm
+	default:
+		return false
+	}
+	return trimmedLen(b) > trimmedLen(a)
+}
+
+// dirtyReceiver parses txt (the text form of v) into a receiver holding old and requires v.
+func dirtyReceiver(k *Kind, v, old reflect.Value, txt string, excl bool) error {
+	key := "C20/text/" + k.Name + "/reused-receiver"
+	if staleClass(v, old) {
+		if excl && stats.KnownOpen(keyStale) {
+			stats.G().Excluded(keyStale)
+			return nil
+		}
+		key = keyStale
+	}
+	p := reflect.New(k.Type)
+	p.Elem().Set(gen.Norm(old)) // deep copy: the parse must not write into the case's value
+	if err := safeErr(func() error { return p.Interface().(encoding.TextUnmarshaler).UnmarshalText([]byte(txt)) }); err != nil {
+		return stats.Failf(key, "%s: UnmarshalText(%q) into a receiver holding another value failed: %v", k.Name, txt, err)
+	}
+	if d := gen.Diff(v, p.Elem()); d != "" {
+		ot, _ := old.Interface().(encoding.TextMarshaler).MarshalText()
+		return stats.Failf(key, "%s: UnmarshalText(%q) into a receiver that held %q does not give the printed value: %s", k.Name, txt, ot, d)
+	}
+	return nil
+}
+
+func drawText(ks []*Kind) func(t *rapid.T) Case {
+	base := drawFor(ks)
+	return func(t *rapid.T) Case {
+		c := base(t)
+		if k := lookupKind(c.Kind); k.Text {
+			c.live2 = gen.Value(t, k.Type, genOpts())
+		}
+		return c
+	}
+}
+
 func textKinds(k *Kind) bool { return k.Text || k.Type == ty[rhp3.SettingsID]() }
 
 func TestText(t *testing.T) {
@@ -196,7 +258,7 @@ func TestText(t *testing.T) {
 	if len(ks) == 0 {
 		t.Skip("no kinds in this shard")
 	}
-	stats.Prop(t, drawFor(ks), checkText)
+	stats.Prop(t, drawText(ks), checkText)
 }
 
 func TestReplayText(t *testing.T) { stats.Replay(t, "TestText", checkText) }
